@@ -115,6 +115,7 @@ def rule_r2(prog, res) -> None:
 
     rpaths0 = [p for p in _sx.explore(prog, rs, inline=lambda caller, call_, callee: callee.module is caller.module and not callee.is_property) if p.outcome != "raise"]
     ok = bool(rpaths0)
+    stale_spawn = None
     for p in rpaths0:
         v = p.store.get("self.rng")
         if not (isinstance(v, ast.Call) and (dotted(v.func) or "").split(".")[-1] == "default_rng" and v.args):
@@ -124,7 +125,16 @@ def rule_r2(prog, res) -> None:
         texts = {"self.seed"} | ({unparse(seed_now)} if seed_now is not None else set())
         if not any(t in unparse(v.args[0]) for t in texts):
             ok = False
-    if ok:
+        # SeedSequence.spawn is stateful (each call hands out the NEXT child): a sequence that is spawned must be built
+        # afresh from the seed inside reseed, not kept on the object between calls
+        for y in ast.walk(v):
+            if isinstance(y, ast.Call) and isinstance(y.func, ast.Attribute) and y.func.attr == "spawn":
+                rcv = y.func.value
+                if not (isinstance(rcv, ast.Call) and (dotted(rcv.func) or "").split(".")[-1] == "SeedSequence"):
+                    stale_spawn = y
+    if stale_spawn is not None:
+        res.violation("C16.R2", rs, rs.node, f"reseed spawns its generator seed from a SeedSequence that lives on the object (`{unparse(stale_spawn)[:60]}`): spawn() is stateful, every reseed hands out the NEXT child stream — the same seed gives other points on the second pass / after any earlier use", key_extra="reseed-stateful-spawn")
+    elif ok:
         res.ok("C16.R2", res.site(rs), "self.rng = default_rng(<derived from self.seed>)")
     else:
         res.violation("C16.R2", rs, rs.node, "reseed does not rebuild the generator from self.seed alone (e.g. default_rng() without seed)", key_extra="reseed-not-from-seed")
